@@ -337,14 +337,27 @@ class Path:
         return g
 
     def _abs_query(self, extra, timeout=800):
-        s = z3.Solver()
-        s.set('timeout', timeout)
-        for p in self.pc:
+        # one incremental solver per path: the path condition only grows (except for the temporary
+        # hypotheses of clause lists / quantifier bodies, detected by comparing the asserted prefix)
+        s = getattr(self, '_abs_solver', None)
+        done = getattr(self, '_abs_done', None)
+        pc = self.pc
+        if s is None or len(done) > len(pc) or any(d is not p for d, p in zip(done, pc)):
+            s = z3.Solver()
+            s.set('timeout', timeout)
+            done = []
+            self._abs_solver, self._abs_done = s, done
+        for p in pc[len(done):]:
             g = self._abstract(p)
             if g is not None:
                 s.add(g)
-        s.add(extra)
-        return s.check()
+            done.append(p)
+        s.push()
+        try:
+            s.add(extra)
+            return s.check()
+        finally:
+            s.pop()
 
     def feasible(self, c):
         if c is True:
@@ -663,9 +676,25 @@ class Path:
         elif isinstance(t, ast.Subscript):
             self.store_subscript(self.eval(t.value), self.eval_index(t.slice), v)
         elif isinstance(t, (ast.Tuple, ast.List)):
-            items = self.unpack(v, len(t.elts), any(isinstance(e, ast.Starred) for e in t.elts))
-            if any(isinstance(e, ast.Starred) for e in t.elts):
-                raise Unsupported('starred assignment')
+            stars = [i for i, e in enumerate(t.elts) if isinstance(e, ast.Starred)]
+            if stars:
+                # a, *rest, z = <iterable with a concrete spine>
+                if len(stars) > 1:
+                    raise Unsupported('two starred targets')
+                allv = self.concrete_iter(v)
+                if allv is None:
+                    raise Unsupported('starred assignment from a symbolic iterable')
+                k = stars[0]
+                after = len(t.elts) - k - 1
+                if len(allv) < len(t.elts) - 1:
+                    raise PyExc(ValueError('not enough values to unpack'))
+                for e, x in zip(t.elts[:k], allv[:k]):
+                    self.assign(e, x)
+                self.assign(t.elts[k].value, self.alloc(LObj(list(allv[k : len(allv) - after]))))
+                for e, x in zip(t.elts[k + 1 :], allv[len(allv) - after :] if after else []):
+                    self.assign(e, x)
+                return
+            items = self.unpack(v, len(t.elts), False)
             for e, x in zip(t.elts, items):
                 self.assign(e, x)
         else:
